@@ -195,7 +195,7 @@ def tlc(ctx, specdir, module, cfg, workers=None, timeout=1800, emit_to=None, fil
                 shutil.copyfile(f, dst)
     workers = workers or NCPU
     jopts = ["-XX:+UseParallelGC", "-XX:ParallelGCThreads=%d" % max(2, min(8, workers)),
-             "-Xmx" + heap, "-Xss512m"]
+             "-Xmx" + heap, "-Xss512m", "-Djava.io.tmpdir=" + ctx.mkdir("jtmp")]
     if deque:
         jopts.append("-Dtlc2.tool.queue.IStateQueue=StateDeque")
     cmd = ["java"] + jopts + ["-cp", TLA_CP, "tlc2.TLC", "-workers", str(workers),
@@ -381,3 +381,48 @@ def main_wrapper(prop, fn):
         ctx.cleanup()
     log("check %s tier=%s seed=%d exit=%d wall=%.1fs" % (prop, args.tier, seed, rc, time.time() - ctx.t0))
     return rc
+
+
+# --------------------------------------------------------------------------
+# overlay (binding C): redirect imports of chosen /repo files to the shims
+
+SHIM_DIR = os.path.join(HARNESS, "_shim")
+ALL_SHIMS = sorted(d for d in os.listdir(SHIM_DIR)) if os.path.isdir(SHIM_DIR) else []
+
+
+def make_overlay(ctx, name, files, shims=None, add=None):
+    """files: {"par/work.go": {"imports": {"sync": "vsync"}, "rewrite_go": True}}.
+    Returns the overlay path.  Nothing is written into the repository."""
+    tool = ctx.path("bin", "mkoverlay")
+    if not os.path.exists(tool):
+        r = subprocess.run(["go", "build", "-o", tool, "./mkoverlay"], cwd=HARNESS, env=go_env(),
+                           stdout=subprocess.PIPE, stderr=subprocess.STDOUT, text=True)
+        if r.returncode != 0:
+            raise NoVerdict("go build mkoverlay failed:\n" + r.stdout[-3000:])
+    d = ctx.mkdir("overlay", name)
+    cfg = dict(repo=REPO, shim_dir=SHIM_DIR, files=files, shims=shims or ALL_SHIMS, add=add or {})
+    cfgp = os.path.join(d, "cfg.json")
+    with open(cfgp, "w") as fh:
+        json.dump(cfg, fh)
+    outp = os.path.join(d, "overlay.json")
+    r = subprocess.run([tool, "-config", cfgp, "-out", outp, "-scratch", d], stdout=subprocess.PIPE,
+                       stderr=subprocess.STDOUT, text=True)
+    if r.returncode != 0:
+        raise NoVerdict("mkoverlay failed:\n" + r.stdout[-3000:])
+    return outp
+
+
+def bad_traces(res):
+    """Parse <<"BAD", "Inv", idx>> lines of a trace-validation run: {idx: {invs}}."""
+    bad = {}
+    with open(res.out_path, errors="replace") as fh:
+        for line in fh:
+            m = re.match(r'<<"BAD", "(\w+)", (\d+)>>', line)
+            if m:
+                bad.setdefault(int(m.group(2)), set()).add(m.group(1))
+    return bad
+
+
+def load_result(path):
+    with open(path) as fh:
+        return json.load(fh)
